@@ -90,6 +90,15 @@ func c05G1Cases(r *rand.Rand, nFlipEnc int) []bcase {
 		c[0] |= 0x80 >> bit
 		cs = append(cs, bcase{c, "infinity-nonzero-byte"})
 	}
+	for rep := 0; rep < 3; rep++ {
+		for _, g := range cancellingGarbage(r, 48) {
+			c := append([]byte{}, inf...)
+			for i, v := range g {
+				c[i] |= v
+			}
+			cs = append(cs, bcase{c, "infinity-cancelling-garbage"})
+		}
+	}
 	// on-curve points outside G1, incl. small-order components
 	for i := 0; i < 12; i++ {
 		g := ref.E1.Mul(ref.G1Gen, randScalar(r))
@@ -177,6 +186,15 @@ func c05G2Cases(r *rand.Rand, cv ref.Conv, nFlipEnc int) []bcase {
 		c := append([]byte{}, inf...)
 		c[0] |= 0x80 >> bit
 		cs = append(cs, bcase{c, "infinity-nonzero-byte"})
+	}
+	for rep := 0; rep < 3; rep++ {
+		for _, g := range cancellingGarbage(r, 96) {
+			c := append([]byte{}, inf...)
+			for i, v := range g {
+				c[i] |= v
+			}
+			cs = append(cs, bcase{c, "infinity-cancelling-garbage"})
+		}
 	}
 	for _, q := range []int64{13, 23, 2713} {
 		if t, ok := ref.TorsionE2(q, []byte("c05")); ok {
